@@ -388,3 +388,31 @@ def palette_is_default(p):
 
 
 SPEC.update(dict(DEFAULT_PALETTE=DEFAULT_PALETTE, palette_is_default=palette_is_default))
+
+
+# ----------------------------------------------------------------------------- C14: sequence-file lines
+def keep_file(c):
+    """characters a sequence line contributes: residue letters and the stop symbol"""
+    return Or(is_aa(c), c == '*')
+
+
+def skip_file(c):
+    """characters of a sequence line that are silently dropped: the space and digits (position numbers)"""
+    return Or(c == ' ', isin(c, '0123456789'))
+
+
+def n_keep(u, lo, hi):
+    return cnt(lambda j: keep_file(u[j]), lo, hi)
+
+
+def kept_ok(r, u, k):
+    return And(length(r) == n_keep(u, 0, k),
+               forall(lambda j: implies(keep_file(u[j]), r[n_keep(u, 0, j)] == u[j]), 0, k),
+               forall(lambda x: keep_file(r[x]), 0, length(r)))
+
+
+def n_star(u, lo, hi):
+    return cnt(lambda j: u[j] == '*', lo, hi)
+
+
+SPEC.update(dict(keep_file=keep_file, skip_file=skip_file, n_keep=n_keep, kept_ok=kept_ok, n_star=n_star))
